@@ -95,7 +95,7 @@ Qed.
    hold a value about to be stored *)
 Section VegasMachine.
   Context (c : vcfg) (smooth : Z -> Z -> Z) (qest : Z -> Z -> Z -> Z).
-  Context (Hmin : 0 <= v_min c) (Hmm : v_min c <= v_max c).
+  Context (Hmin : 0 <= v_min c) (Hmm : v_min c <= v_max c) (Hu : v_max c <= U64MAX).
 
   Definition vin_bounds (v : Z) : Prop := v_min c <= v <= v_max c.
 
@@ -111,7 +111,7 @@ Section VegasMachine.
 
   Lemma vg_new_bounds mn sm cur : vin_bounds cur -> vin_bounds (vg_new c qest mn sm cur).
   Proof.
-    unfold vin_bounds, vg_new, sat_sub. intros H.
+    unfold vin_bounds, vg_new, sat_sub, sat_add. intros H.
     destruct (_ <? v_alpha c); [lia|]. destruct (v_beta c <? _); lia.
   Qed.
 
@@ -176,13 +176,13 @@ End VegasMachine.
 Lemma vg_limit_in_bounds :
   forall (c : vcfg) (smooth : Z -> Z -> Z) (qest : Z -> Z -> Z -> Z) (initial : Z)
          (progs : list (list vg_call)) (sched : list (nat * bool)),
-    0 <= v_min c -> v_min c <= v_max c ->
+    0 <= v_min c -> v_min c <= v_max c -> v_max c <= U64MAX ->
     Forall (fun s => v_min c <= st_mem s LLim <= v_max c
                      /\ Forall (fun r => r_call r = VgLimit -> v_min c <= r_ret r <= v_max c)
                                (st_log s))
            (states (step (vg_prog c smooth qest)) (init_state (vg_mem c initial) progs) sched).
 Proof.
-  intros c smooth qest initial progs sched H1 H2.
+  intros c smooth qest initial progs sched H1 H2 H3.
   eapply Forall_impl; [|apply vg_reach; assumption].
   intros s [[Hb Hl] _]. split; [exact Hb|exact Hl].
 Qed.
@@ -198,7 +198,7 @@ Lemma limit_in_bounds :
   /\
   (forall (c : vcfg) (smooth : Z -> Z -> Z) (qest : Z -> Z -> Z -> Z) (initial : Z)
           (progs : list (list vg_call)) (sched : list (nat * bool)),
-      0 <= v_min c -> v_min c <= v_max c ->
+      0 <= v_min c -> v_min c <= v_max c -> v_max c <= U64MAX ->
       Forall (fun s => v_min c <= st_mem s LLim <= v_max c
                        /\ Forall (fun r => r_call r = VgLimit -> v_min c <= r_ret r <= v_max c)
                                  (st_log s))
@@ -221,6 +221,23 @@ Example vegas_adjusts :
                      (init_state (vg_mem v 10) [[VgSuccess 1024; VgSuccess 4096; VgFailure]]) in
   (st_mem s LLim, st_mem s LMin, st_mem s LSm, st_mem s LCnt) = (4, 1024, 2560, 2).
 Proof. vm_compute. reflexivity. Qed.
+
+(* the boundary the review found: initial = max = usize::MAX, ten equal RTTs (queue estimate
+   0 < alpha): the limit saturates and stays at usize::MAX ... *)
+Example vegas_saturates_at_usize_max :
+  let v := {| v_min := 1; v_max := U64MAX; v_alpha := 3; v_beta := 6; v_min_samples := 2 |} in
+  let s := fold_left (step (vg_prog v smooth_half qest_q))
+                     (map (fun t => (t, false)) (repeat 0%nat 40))
+                     (init_state (vg_mem v U64MAX) [[VgSuccess 1024; VgSuccess 1024]]) in
+  (st_mem s LLim, st_mem s LCnt, vg_new v qest_q 1024 1024 U64MAX) = (U64MAX, 2, U64MAX).
+Proof. vm_compute. reflexivity. Qed.
+
+(* ... whereas the step as written before /repo 96e4b2b (wrapping usize addition) stores 0,
+   below min_limit = 1: the bound was false of the code at this configuration *)
+Example vegas_wrapped_at_usize_max :
+  let v := {| v_min := 1; v_max := U64MAX; v_alpha := 3; v_beta := 6; v_min_samples := 2 |} in
+  vg_new_wrap v qest_q 1024 1024 U64MAX = 0 /\ ~ (v_min v <= vg_new_wrap v qest_q 1024 1024 U64MAX).
+Proof. vm_compute. split; [reflexivity|intros H; apply H; reflexivity]. Qed.
 
 (* ------------------------------------------------------------------------- *)
 (* (b) the service *)
@@ -279,92 +296,138 @@ Proof.
     try discriminate; contradiction.
 Qed.
 
-Section Service.
-  Context (c : acfg) (dec : Z -> Z) (thr : Z) (Hmm : a_min c <= a_max c)
-          (Hu : a_max c <= U64MAX) (Hinc : 0 <= a_inc c).
+(* the part of the invariant that does not depend on the algorithm at all *)
+Section ServiceCount.
+  Context (A : alg).
 
-  Definition sv_inv (s : svc) : Prop :=
+  Definition sv_cinv (s : svc) : Prop :=
     sv_inflight s = Z.of_nat (length (sv_live s))
     /\ NoDup (map fst (sv_live s))
-    /\ (forall a, In a (map fst (sv_live s)) -> In a (sv_created s))
-    /\ a_min c <= sv_limit s <= a_max c.
+    /\ (forall a, In a (map fst (sv_live s)) -> In a (sv_created s)).
 
-  Lemma sv_inv_remove (s : svc) a start lim :
-    sv_inv s -> lookup a (sv_live s) = Some start -> a_min c <= lim <= a_max c ->
-    sv_inv (sv_set s lim (sv_inflight s - 1) (remove_key a (sv_live s))).
+  Lemma sv_cinv_remove (s : svc) a start al :
+    sv_cinv s -> lookup a (sv_live s) = Some start ->
+    sv_cinv (sv_set s al (sv_inflight s - 1) (remove_key a (sv_live s))).
   Proof.
-    intros (Hc & Hn & Hi & Hb) Hlk Hlim. unfold sv_inv, sv_set; cbn.
+    intros (Hc & Hn & Hi) Hlk. unfold sv_cinv, sv_set; cbn.
     pose proof (remove_key_length _ _ _ Hn Hlk) as Hlen.
     split; [lia|]. split; [apply remove_key_nodup; exact Hn|].
-    split; [|assumption]. intros x Hx. apply remove_key_in in Hx. apply Hi. tauto.
+    intros x Hx. apply remove_key_in in Hx. apply Hi. tauto.
   Qed.
 
-  Lemma sv_inv_step (s : svc) (e : sev) : sv_inv s -> sv_inv (sv_st c dec thr s e).
+  Lemma sv_cinv_step (s : svc) (e : sev) : sv_cinv s -> sv_cinv (sv_st A s e).
   Proof.
-    intros H. pose proof H as (Hc & Hn & Hi & Hb).
+    intros H. pose proof H as (Hc & Hn & Hi).
     unfold sv_st. destruct e as [|a|a|a o|a|ms|mode|a| |]; cbn [sv_step].
     - destruct (sv_limit s <=? sv_inflight s); exact H.
     - destruct (memn a (sv_created s)) eqn:Em; [exact H|]. cbn.
-      unfold sv_inv; cbn [sv_inflight sv_live sv_created sv_limit map fst length].
+      unfold sv_cinv; cbn [sv_inflight sv_live sv_created map fst length].
       split; [lia|]. split.
       + constructor; [|exact Hn]. intros Hin. apply Hi in Hin. apply memn_true_iff in Hin. congruence.
-      + split; [|assumption]. intros x [<-|Hx]; [left; reflexivity|right; apply Hi; exact Hx].
+      + intros x [<-|Hx]; [left; reflexivity|right; apply Hi; exact Hx].
     - destruct (lookup a (sv_live s)) as [start|] eqn:El; [|exact H].
       destruct (lookup a (sv_gate s)) as [o|]; [|exact H].
-      destruct (o =? 0); [|destruct (o =? 1)]; cbn [fst].
-      + eapply sv_inv_remove; eauto. destruct (thr <? sv_now s - start).
-        * apply ctl_fail_bounds; exact Hmm.
-        * apply ctl_succ_bounds; try assumption. lia.
-      + eapply sv_inv_remove; eauto. apply ctl_fail_bounds; exact Hmm.
-      + eapply sv_inv_remove; eauto.
+      destruct (o =? 0); [|destruct (o =? 1)]; cbn [fst]; eapply sv_cinv_remove; eauto.
     - destruct (lookup a (sv_gate s)); exact H.
     - destruct (lookup a (sv_live s)) as [start|] eqn:El; [|exact H]. cbn [fst].
-      eapply sv_inv_remove; eauto.
+      eapply sv_cinv_remove; eauto.
     - exact H.
     - exact H.
     - destruct (memn a (sv_created s)) eqn:Em; [exact H|]. cbn.
-      unfold sv_inv; cbn [sv_inflight sv_live sv_created sv_limit].
-      split; [lia|]. split; [exact Hn|]. split; [|exact Hb].
-      intros x Hx. right. apply Hi. exact Hx.
-    - cbn [fst]. unfold sv_inv, sv_set; cbn.
-      split; [exact Hc|]. split; [exact Hn|]. split; [exact Hi|]. apply ctl_fail_bounds; exact Hmm.
-    - cbn [fst]. unfold sv_inv, sv_set; cbn.
-      split; [exact Hc|]. split; [exact Hn|]. split; [exact Hi|]. destruct (thr <? 0).
-      + apply ctl_fail_bounds; exact Hmm.
-      + apply ctl_succ_bounds; try assumption. lia.
+      unfold sv_cinv; cbn [sv_inflight sv_live sv_created].
+      split; [lia|]. split; [exact Hn|]. intros x Hx. right. apply Hi. exact Hx.
+    - exact H.
+    - exact H.
   Qed.
 
-  Lemma sv_inv_init initial : sv_inv (sv_init c initial).
+  Lemma sv_cinv_init a0 : sv_cinv (sv_init a0).
+  Proof. unfold sv_cinv, sv_init; cbn. split; [reflexivity|]. split; [constructor|tauto]. Qed.
+
+  Lemma sv_creach a0 evs : Forall sv_cinv (states (sv_st A) (sv_init a0) evs).
+  Proof. apply reach_inv; [apply sv_cinv_init|intros s e; apply sv_cinv_step]. Qed.
+End ServiceCount.
+
+(* the limit the service sees stays within any interval that the algorithm's two feedback
+   functions preserve *)
+Section ServiceLimit.
+  Context (A : alg) (lo hi : Z)
+          (Hok : forall lat a, lo <= as_lim a <= hi -> lo <= as_lim (al_ok A lat a) <= hi)
+          (Herr : forall a, lo <= as_lim a <= hi -> lo <= as_lim (al_err A a) <= hi).
+
+  Definition sv_linv (s : svc) : Prop := lo <= sv_limit s <= hi.
+
+  Lemma sv_linv_step (s : svc) (e : sev) : sv_linv s -> sv_linv (sv_st A s e).
   Proof.
-    unfold sv_inv, sv_init; cbn. split; [reflexivity|]. split; [constructor|].
-    split; [tauto|]. unfold ctl_init. apply clampz_bounds. exact Hmm.
+    unfold sv_linv, sv_limit, sv_st. intros H.
+    destruct e as [|a|a|a o|a|ms|mode|a| |]; cbn [sv_step].
+    - destruct (sv_limit s <=? sv_inflight s); exact H.
+    - destruct (memn a (sv_created s)); exact H.
+    - destruct (lookup a (sv_live s)) as [start|]; [|exact H].
+      destruct (lookup a (sv_gate s)) as [o|]; [|exact H].
+      destruct (o =? 0); [|destruct (o =? 1)]; cbn; auto.
+    - destruct (lookup a (sv_gate s)); exact H.
+    - destruct (lookup a (sv_live s)); exact H.
+    - exact H.
+    - exact H.
+    - destruct (memn a (sv_created s)); exact H.
+    - cbn. auto.
+    - cbn. auto.
   Qed.
 
-  Lemma sv_reach initial evs :
-    Forall sv_inv (states (sv_st c dec thr) (sv_init c initial) evs).
-  Proof. apply reach_inv; [apply sv_inv_init|intros s e; apply sv_inv_step]. Qed.
-End Service.
+  Lemma sv_lreach a0 evs :
+    lo <= as_lim a0 <= hi -> Forall sv_linv (states (sv_st A) (sv_init a0) evs).
+  Proof. intros H. apply reach_inv; [exact H|intros s e; apply sv_linv_step]. Qed.
+End ServiceLimit.
+
+(* the two algorithms preserve [min, max] *)
+Lemma aimd_alg_ok (c : acfg) (dec : Z -> Z) (thr : Z) :
+  a_min c <= a_max c -> a_max c <= U64MAX -> 0 <= a_inc c ->
+  (forall lat a, a_min c <= as_lim a <= a_max c ->
+                 a_min c <= as_lim (al_ok (aimd_alg c dec thr) lat a) <= a_max c)
+  /\ (forall a, a_min c <= as_lim a <= a_max c ->
+                a_min c <= as_lim (al_err (aimd_alg c dec thr) a) <= a_max c).
+Proof.
+  intros Hmm Hu Hinc. split.
+  - intros lat a H. cbn. destruct (thr <? lat).
+    + apply ctl_fail_bounds; exact Hmm.
+    + apply ctl_succ_bounds; try assumption. lia.
+  - intros a H. cbn. apply ctl_fail_bounds; exact Hmm.
+Qed.
+
+Lemma vegas_alg_ok (c : vcfg) (smooth : Z -> Z -> Z) (qest : Z -> Z -> Z -> Z) :
+  0 <= v_min c -> v_min c <= v_max c -> v_max c <= U64MAX ->
+  (forall lat a, v_min c <= as_lim a <= v_max c ->
+                 v_min c <= as_lim (al_ok (vegas_alg c smooth qest) lat a) <= v_max c)
+  /\ (forall a, v_min c <= as_lim a <= v_max c ->
+                v_min c <= as_lim (al_err (vegas_alg c smooth qest) a) <= v_max c).
+Proof.
+  intros Hmin Hmm Hu. split.
+  - intros lat a H. cbn [vegas_alg al_ok vs_succ as_lim].
+    destruct (_ <? v_min_samples c); [exact H|].
+    destruct (_ || _); [exact H|].
+    apply (vg_new_bounds c qest Hmin Hmm Hu). exact H.
+  - intros a H. cbn. apply (half_bounds c Hmin Hmm). exact H.
+Qed.
 
 (* in_flight = number of call futures created and not yet finished / failed / panicked /
-   dropped, in every reachable state (a call() whose inner.call() panics creates no future
-   and gives its slot back while unwinding) *)
+   dropped, in every reachable state, whatever the algorithm does (a call() whose
+   inner.call() panics creates no future and gives its slot back while unwinding) *)
 Lemma inflight_exact :
-  forall (c : acfg) (dec : Z -> Z) (thr initial : Z) (evs : list sev),
-    a_min c <= a_max c -> a_max c <= U64MAX -> 0 <= a_inc c ->
+  forall (A : alg) (a0 : ast) (evs : list sev),
     Forall (fun s => sv_inflight s = Z.of_nat (length (sv_live s))
                      /\ NoDup (map fst (sv_live s)))
-           (states (sv_st c dec thr) (sv_init c initial) evs).
+           (states (sv_st A) (sv_init a0) evs).
 Proof.
-  intros c dec thr initial evs H1 H2 H3.
-  eapply Forall_impl; [|apply sv_reach; assumption].
+  intros A a0 evs.
+  eapply Forall_impl; [|apply sv_creach].
   intros s (Hc & Hn & _). split; assumption.
 Qed.
 
 (* the same as a balance over the history of result codes: +1 for every call future
    created (20), -1 for every poll that returned Ok (31), Err (32) or panicked (35) and for
    every drop of a live future (50) *)
-Lemma sv_step_delta c dec thr s e :
-  sv_inflight (fst (sv_step c dec thr s e)) = sv_inflight s + code_delta (snd (sv_step c dec thr s e)).
+Lemma sv_step_delta A s e :
+  sv_inflight (fst (sv_step A s e)) = sv_inflight s + code_delta (snd (sv_step A s e)).
 Proof.
   destruct e as [|a|a|a o|a|ms|mode|a| |]; cbn [sv_step].
   - destruct (sv_limit s <=? sv_inflight s); cbn; [lia|].
@@ -381,90 +444,211 @@ Proof.
   - cbn; lia.
 Qed.
 
-Lemma sv_run_state c dec thr s evs :
-  fst (sv_run c dec thr s evs) = fold_left (sv_st c dec thr) evs s.
+Lemma sv_run_state A s evs :
+  fst (sv_run A s evs) = fold_left (sv_st A) evs s.
 Proof.
   revert s; induction evs as [|e t IH]; intros s; cbn; [reflexivity|].
-  unfold sv_st at 2. destruct (sv_step c dec thr s e) as [s' r].
-  specialize (IH s'). destruct (sv_run c dec thr s' t) as [s'' rs]. cbn in *. exact IH.
+  unfold sv_st at 2. destruct (sv_step A s e) as [s' r].
+  specialize (IH s'). destruct (sv_run A s' t) as [s'' rs]. cbn in *. exact IH.
 Qed.
 
 Lemma inflight_history :
-  forall (c : acfg) (dec : Z -> Z) (thr : Z) (s : svc) (evs : list sev),
-    sv_inflight (fst (sv_run c dec thr s evs))
-    = sv_inflight s + sumz (map code_delta (snd (sv_run c dec thr s evs))).
+  forall (A : alg) (s : svc) (evs : list sev),
+    sv_inflight (fst (sv_run A s evs))
+    = sv_inflight s + sumz (map code_delta (snd (sv_run A s evs))).
 Proof.
-  intros c dec thr s evs; revert s; induction evs as [|e t IH]; intros s; cbn; [lia|].
-  pose proof (sv_step_delta c dec thr s e) as Hd.
-  destruct (sv_step c dec thr s e) as [s' r]. specialize (IH s').
-  destruct (sv_run c dec thr s' t) as [s'' rs]. cbn in *. lia.
+  intros A s evs; revert s; induction evs as [|e t IH]; intros s; cbn; [lia|].
+  pose proof (sv_step_delta A s e) as Hd.
+  destruct (sv_step A s e) as [s' r]. specialize (IH s').
+  destruct (sv_run A s' t) as [s'' rs]. cbn in *. lia.
 Qed.
 
 Lemma inflight_history_init :
-  forall (c : acfg) (dec : Z -> Z) (thr initial : Z) (evs : list sev),
-    sv_inflight (fst (sv_run c dec thr (sv_init c initial) evs))
-    = sumz (map code_delta (snd (sv_run c dec thr (sv_init c initial) evs))).
+  forall (A : alg) (a0 : ast) (evs : list sev),
+    sv_inflight (fst (sv_run A (sv_init a0) evs))
+    = sumz (map code_delta (snd (sv_run A (sv_init a0) evs))).
 Proof. intros. rewrite inflight_history. cbn. lia. Qed.
 
 Lemma zero_when_idle :
-  forall (c : acfg) (dec : Z -> Z) (thr initial : Z) (evs : list sev),
-    a_min c <= a_max c -> a_max c <= U64MAX -> 0 <= a_inc c ->
+  forall (A : alg) (a0 : ast) (evs : list sev),
     Forall (fun s => sv_live s = [] -> sv_inflight s = 0)
-           (states (sv_st c dec thr) (sv_init c initial) evs).
+           (states (sv_st A) (sv_init a0) evs).
 Proof.
-  intros c dec thr initial evs H1 H2 H3.
-  eapply Forall_impl; [|apply (inflight_exact c dec thr initial evs H1 H2 H3)].
+  intros A a0 evs.
+  eapply Forall_impl; [|apply (inflight_exact A a0 evs)].
   cbn. intros s [Hc _] Hlive. rewrite Hc, Hlive. reflexivity.
 Qed.
 
 (* poll_ready *)
 Lemma ready_when_below :
-  forall (c : acfg) (dec : Z -> Z) (thr : Z) (s : svc),
+  forall (A : alg) (s : svc),
     sv_inflight s < sv_limit s -> sv_inner s = 0 ->
-    sv_step c dec thr s EReady = (s, 11).
+    sv_step A s EReady = (s, 11).
 Proof.
-  intros c dec thr s H Hi. cbn. destruct (Z.leb_spec (sv_limit s) (sv_inflight s)); [lia|].
+  intros A s H Hi. cbn. destruct (Z.leb_spec (sv_limit s) (sv_inflight s)); [lia|].
   rewrite Hi. reflexivity.
 Qed.
 
 Lemma ready_when_below_live :
-  forall (c : acfg) (dec : Z -> Z) (thr initial : Z) (evs : list sev),
-    a_min c <= a_max c -> a_max c <= U64MAX -> 0 <= a_inc c ->
+  forall (A : alg) (a0 : ast) (evs : list sev),
     Forall (fun s => Z.of_nat (length (sv_live s)) < sv_limit s -> sv_inner s = 0 ->
-                     sv_step c dec thr s EReady = (s, 11))
-           (states (sv_st c dec thr) (sv_init c initial) evs).
+                     sv_step A s EReady = (s, 11))
+           (states (sv_st A) (sv_init a0) evs).
 Proof.
-  intros c dec thr initial evs H1 H2 H3.
-  eapply Forall_impl; [|apply (inflight_exact c dec thr initial evs H1 H2 H3)].
+  intros A a0 evs.
+  eapply Forall_impl; [|apply (inflight_exact A a0 evs)].
   cbn beta. intros s [Hc _] Hlt Hi. apply ready_when_below; [lia|exact Hi].
 Qed.
 
 Lemma pending_when_at_limit :
-  forall (c : acfg) (dec : Z -> Z) (thr : Z) (s : svc),
+  forall (A : alg) (s : svc),
     sv_limit s <= sv_inflight s ->
-    sv_step c dec thr s EReady = (s, 13).
+    sv_step A s EReady = (s, 13).
 Proof.
-  intros c dec thr s H. cbn. destruct (Z.leb_spec (sv_limit s) (sv_inflight s)); [reflexivity|lia].
+  intros A s H. cbn. destruct (Z.leb_spec (sv_limit s) (sv_inflight s)); [reflexivity|lia].
 Qed.
 
-Lemma service_limit_in_bounds :
-  forall (c : acfg) (dec : Z -> Z) (thr initial : Z) (evs : list sev),
-    a_min c <= a_max c -> a_max c <= U64MAX -> 0 <= a_inc c ->
-    Forall (fun s => a_min c <= sv_limit s <= a_max c)
-           (states (sv_st c dec thr) (sv_init c initial) evs).
+(* ... and in every reachable state in terms of the live call futures: a readiness check made
+   while limit (or more) calls are in flight does not admit the caller *)
+Lemma pending_when_at_limit_live :
+  forall (A : alg) (a0 : ast) (evs : list sev),
+    Forall (fun s => sv_limit s <= Z.of_nat (length (sv_live s)) ->
+                     sv_step A s EReady = (s, 13))
+           (states (sv_st A) (sv_init a0) evs).
 Proof.
-  intros c dec thr initial evs H1 H2 H3.
-  eapply Forall_impl; [|apply sv_reach; assumption].
-  intros s (_ & _ & _ & Hb). exact Hb.
+  intros A a0 evs.
+  eapply Forall_impl; [|apply (inflight_exact A a0 evs)].
+  cbn beta. intros s [Hc _] Hle. apply pending_when_at_limit. lia.
+Qed.
+
+(* the limit the service compares with stays in bounds, for both algorithms *)
+Lemma service_limit_in_bounds :
+  (forall (c : acfg) (dec : Z -> Z) (thr initial : Z) (evs : list sev),
+      a_min c <= a_max c -> a_max c <= U64MAX -> 0 <= a_inc c ->
+      Forall (fun s => a_min c <= sv_limit s <= a_max c)
+             (states (sv_st (aimd_alg c dec thr)) (sv_init (aimd_init c initial)) evs))
+  /\
+  (forall (c : vcfg) (smooth : Z -> Z -> Z) (qest : Z -> Z -> Z -> Z) (initial : Z)
+          (evs : list sev),
+      0 <= v_min c -> v_min c <= v_max c -> v_max c <= U64MAX ->
+      Forall (fun s => v_min c <= sv_limit s <= v_max c)
+             (states (sv_st (vegas_alg c smooth qest)) (sv_init (vegas_init c initial)) evs)).
+Proof.
+  split.
+  - intros c dec thr initial evs H1 H2 H3.
+    destruct (aimd_alg_ok c dec thr H1 H2 H3) as [Hok Herr].
+    apply (sv_lreach _ _ _ Hok Herr). cbn. unfold ctl_init. apply clampz_bounds. exact H1.
+  - intros c smooth qest initial evs H1 H2 H3.
+    destruct (vegas_alg_ok c smooth qest H1 H2 H3) as [Hok Herr].
+    apply (sv_lreach _ _ _ Hok Herr). cbn. unfold clampz.
+    destruct (Z.ltb_spec initial (v_min c)); [lia|]. destruct (Z.ltb_spec (v_max c) initial); lia.
+Qed.
+
+(* ---- what run_script prints for a service script ---- *)
+(* every (code, in_flight, limit) triple of the event part comes from a reachable state, and
+   in that state in_flight is the number of live call futures *)
+Lemma sv_trace_triples A s evs :
+  Forall (fun w => exists s', In s' (states (sv_st A) s evs)
+                              /\ snd (fst w) = sv_inflight s' /\ snd w = sv_limit s')
+         (chunk3 (snd (sv_trace A s evs))).
+Proof.
+  revert s; induction evs as [|e t IH]; intros s; cbn [sv_trace].
+  - constructor.
+  - pose proof (IH (sv_st A s e)) as H. unfold sv_st in H |- *.
+    cbn [states]. destruct (sv_step A s e) as [s' r]. cbn [fst] in H.
+    destruct (sv_trace A s' t) as [s'' tr]. cbn [snd chunk3] in *.
+    constructor.
+    + exists s'. cbn. split; [|split; reflexivity].
+      right. destruct t; cbn; left; reflexivity.
+    + eapply Forall_impl; [|exact H]. cbn beta. intros w (x & Hx & Hw). exists x. split; [right; exact Hx|exact Hw].
+Qed.
+
+Lemma trace_inflight_exact :
+  forall (A : alg) (a0 : ast) (evs : list sev),
+    Forall (fun w => exists s, In s (states (sv_st A) (sv_init a0) evs)
+                               /\ snd (fst w) = Z.of_nat (length (sv_live s))
+                               /\ snd w = sv_limit s)
+           (chunk3 (snd (sv_trace A (sv_init a0) evs))).
+Proof.
+  intros A a0 evs.
+  eapply Forall_impl; [|apply sv_trace_triples].
+  cbn beta. intros w (s & Hs & H1 & H2). exists s. split; [exact Hs|]. split; [|exact H2].
+  pose proof (inflight_exact A a0 evs) as Hf. rewrite Forall_forall in Hf.
+  destruct (Hf s Hs) as [Hc _]. lia.
+Qed.
+
+(* the closing part of every service script: all futures still alive are dropped, the inner
+   service made ready, a probe caller checks readiness. Whatever happened before, the
+   counter is back to zero and the probe is admitted (unless the limit itself is 0) *)
+Lemma drop_all A (l : list nat) s :
+  (forall a, In a (map fst (sv_live s)) -> In a l) ->
+  sv_live (fold_left (sv_st A) (map EDrop l) s) = [].
+Proof.
+  revert s; induction l as [|a l IH]; intros s H; cbn [map fold_left].
+  - destruct (sv_live s) as [|[k v] t]; [reflexivity|]. exfalso. apply (H k). left; reflexivity.
+  - apply IH. unfold sv_st; cbn [sv_step].
+    destruct (lookup a (sv_live s)) as [st|] eqn:El; cbn [fst].
+    + cbn. intros x Hx. apply remove_key_in in Hx. destruct Hx as [Hx Hne].
+      destruct (H x Hx) as [E|E]; [congruence|exact E].
+    + intros x Hx. destruct (H x Hx) as [E|E]; [|exact E].
+      subst x. apply lookup_none_notin in El. contradiction.
+Qed.
+
+Lemma fold_sv_run A evs1 evs2 s :
+  fold_left (sv_st A) (evs1 ++ evs2) s = fold_left (sv_st A) evs2 (fold_left (sv_st A) evs1 s).
+Proof. apply fold_left_app. Qed.
+
+Lemma sv_trace_state A s evs : fst (sv_trace A s evs) = fold_left (sv_st A) evs s.
+Proof.
+  revert s; induction evs as [|e t IH]; intros s; cbn; [reflexivity|].
+  unfold sv_st at 2. destruct (sv_step A s e) as [s' r].
+  specialize (IH s'). destruct (sv_trace A s' t) as [s'' rs]. cbn in *. exact IH.
+Qed.
+
+Lemma script_probe :
+  forall (A : alg) (a0 : ast) (evs : list sev),
+    exists tr lim,
+      sv_script A a0 evs = tr ++ [if lim <=? 0 then 13 else 11; 0; lim]
+      /\ tr = snd (sv_trace A (sv_init a0) evs).
+Proof.
+  intros A a0 evs. unfold sv_script.
+  pose proof (sv_trace_state A (sv_init a0) evs) as Hst.
+  destruct (sv_trace A (sv_init a0) evs) as [s1 tr]. cbn [fst snd] in *.
+  set (closing := map (fun p => EDrop (fst p)) (sv_live s1) ++ [ESetInner 0]).
+  set (s2 := fold_left (sv_st A) closing s1).
+  assert (Hreach : sv_cinv s2).
+  { unfold s2. rewrite Hst, <- fold_left_app. apply fold_left_inv; [apply sv_cinv_init|].
+    intros s e. apply sv_cinv_step. }
+  assert (Hlive : sv_live s2 = []).
+  { unfold s2, closing. rewrite fold_left_app. cbn [fold_left sv_st sv_step fst sv_live].
+    rewrite <- (map_map fst EDrop). apply drop_all. auto. }
+  assert (Hinner : sv_inner s2 = 0).
+  { unfold s2, closing. rewrite fold_left_app. reflexivity. }
+  destruct Hreach as (Hc & _ & _). rewrite Hlive in Hc. cbn in Hc.
+  exists tr, (sv_limit s2). split; [|reflexivity].
+  cbn [sv_step]. rewrite Hinner. cbn [Z.eqb]. rewrite Hc.
+  destruct (sv_limit s2 <=? 0); rewrite ?Hc; reflexivity.
 Qed.
 
 (* non-vacuity / regression shapes *)
 Example cancelled_calls_give_slots_back :
   let c := {| a_min := 1; a_max := 2; a_inc := 1 |} in
-  let r := sv_run c (dec_q 1 2) 100 (sv_init c 2)
+  let r := sv_run (aimd_alg c (dec_q 1 2) 100) (sv_init (aimd_init c 2))
                   [ECall 0; ECall 1; EReady; EPoll 0; EPoll 1; EDrop 0; EDrop 1; EReady] in
   (snd r, sv_inflight (fst r)) = ([20; 20; 13; 30; 30; 50; 50; 11], 0).
 Proof. vm_compute. reflexivity. Qed.
+
+(* the same history on the service as it was on the pinned tree (no guard: a dropped call
+   keeps its slot): in_flight stays 2 with nothing alive and readiness is refused for ever.
+   [inflight_exact] is false of that machine: the theorem discriminates. *)
+Example pinned_service_refuted :
+  let c := {| a_min := 1; a_max := 2; a_inc := 1 |} in
+  let A := aimd_alg c (dec_q 1 2) 100 in
+  let s := fold_left (fun s e => fst (sv_step_pinned A s e))
+                     [ECall 0; ECall 1; EDrop 0; EDrop 1] (sv_init (aimd_init c 2)) in
+  (sv_inflight s, sv_live s, snd (sv_step_pinned A s EReady)) = (2, [], 13)
+  /\ ~ (sv_inflight s = Z.of_nat (length (sv_live s))).
+Proof. vm_compute. split; [reflexivity|discriminate]. Qed.
 
 (* feedback that reaches the shared algorithm from elsewhere moves the limit this service's
    poll_ready compares with: two calls in flight at limit 2, an external failure halves the
@@ -472,7 +656,7 @@ Proof. vm_compute. reflexivity. Qed.
    to 3 (Ready) *)
 Example external_feedback_moves_readiness :
   let c := {| a_min := 1; a_max := 4; a_inc := 1 |} in
-  let r := sv_run c (dec_q 1 2) 100 (sv_init c 3)
+  let r := sv_run (aimd_alg c (dec_q 1 2) 100) (sv_init (aimd_init c 3))
                   [ECall 0; ECall 1; EReady; EExtFail; EReady; EExtSucc; EReady; EExtSucc; EReady] in
   (snd r, sv_limit (fst r)) = ([20; 20; 11; 80; 13; 81; 13; 81; 11], 3).
 Proof. vm_compute. reflexivity. Qed.
@@ -481,6 +665,189 @@ Proof. vm_compute. reflexivity. Qed.
    was lost for good) *)
 Example sync_call_panic_gives_slot_back :
   let c := {| a_min := 1; a_max := 2; a_inc := 1 |} in
-  let r := sv_run c (dec_q 1 2) 100 (sv_init c 2) [ECallPanic 0; ECallPanic 1; EReady] in
+  let r := sv_run (aimd_alg c (dec_q 1 2) 100) (sv_init (aimd_init c 2)) [ECallPanic 0; ECallPanic 1; EReady] in
   (snd r, sv_inflight (fst r), sv_live (fst r)) = ([26; 26; 11], 0, []).
+Proof. vm_compute. reflexivity. Qed.
+
+(* the service over Vegas: ten calls of 2 ms warm the estimator up (limit 3 -> 4 at the tenth),
+   two slow ones (64 ms) push the queue estimate over beta: the limit goes down to 3, then 2 *)
+Example vegas_service_adjusts :
+  let v := {| v_min := 1; v_max := 5; v_alpha := 3; v_beta := 6; v_min_samples := 10 |} in
+  let one := fun (a : nat) (ms : Z) => [ECall a; EAdvance ms; EComplete a 0; EPoll a] in
+  let evs := concat (map (fun a => one a 2) (seq 0 10)) ++ one 10%nat 64 ++ one 11%nat 64 in
+  let r := sv_run (vegas_alg v smooth_half qest_q) (sv_init (vegas_init v 3)) evs in
+  (sv_limit (fst r), sv_inflight (fst r), as_mn (sv_alg (fst r)), as_cnt (sv_alg (fst r)))
+  = (2, 0, 2000000, 12).
+Proof. vm_compute. reflexivity. Qed.
+
+(* the sequential reading [vs_succ] / [vs_fail] of Vegas used by the service model agrees with
+   the atomic-step program [vg_prog] run by one thread alone (checked by evaluation on a
+   warm-up, increase, decrease and failure sequence; both are compared with the implementation
+   by the correspondence run: kind 3 drives vg_prog's steps, kinds 6 / 8 the sequential reading) *)
+Definition ast_of_mem (m : mem) : ast :=
+  {| as_lim := m LLim; as_mn := m LMin; as_sm := m LSm; as_cnt := m LCnt |}.
+
+Example vegas_alone_is_sequential_on_samples :
+  let v := {| v_min := 1; v_max := 6; v_alpha := 3; v_beta := 6; v_min_samples := 10 |} in
+  let rtts := [2; 2; 2; 2; 2; 2; 2; 2; 2; 2; 2; 64; 64; 1; 0; 64; 2; 2] in
+  let calls := map (fun r => VgSuccess (r * NS_PER_MS)) rtts ++ [VgFailure; VgSuccess (3 * NS_PER_MS)] in
+  let s := fold_left (step (vg_prog v smooth_half qest_q))
+                     (map (fun t => (t, false)) (repeat 0%nat 250))
+                     (init_state (vg_mem v 3) [calls]) in
+  let seq := fold_left (fun a k => match k with
+                                   | VgSuccess r => vs_succ v smooth_half qest_q r a
+                                   | VgFailure => vs_fail v a
+                                   | VgLimit => a
+                                   end) calls (vegas_init v 3) in
+  (ast_of_mem (st_mem s), map (@th_cur _ _) (st_thr s), length (st_log s))
+  = (seq, [None], 20%nat).
+Proof. vm_compute. reflexivity. Qed.
+
+(* ------------------------------------------------------------------------- *)
+(* (c) the service under threads: clones on worker threads, atomic steps interleaved *)
+Section TvMachine.
+  Context (c : acfg) (dec : Z -> Z).
+  Context (Hmm : a_min c <= a_max c) (Hu : a_max c <= U64MAX) (Hinc : 0 <= a_inc c).
+
+  Definition tv_G (m : mem) (log : list (orec tv_call)) (W : Z) : Prop :=
+    m LInf = countz tv_is_call log - countz tv_is_finish log + W
+    /\ a_min c <= m LLim <= a_max c.
+
+  Definition tv_L (call : tv_call) (pc : tv_pc) : Prop :=
+    match pc with
+    | TrLim | TrInf _ => call = TvReady
+    | TcAdd | TcLim | TcCur _ | TcStore _ => call = TvCall
+    | TpAdd | TpSub => call = TvCallPanic
+    | TfSub o => call = TvFinish o
+    | _ => exists o, call = TvFinish o
+    end.
+
+  Lemma tv_call_cons tid call ret first clock (log : list (orec tv_call)) :
+    countz tv_is_call ({| r_tid := tid; r_call := call; r_ret := ret; r_first := first;
+                          r_res := clock |} :: log)
+    = b2z (match call with TvCall => true | _ => false end) + countz tv_is_call log.
+  Proof. reflexivity. Qed.
+
+  Lemma tv_finish_cons tid call ret first clock (log : list (orec tv_call)) :
+    countz tv_is_finish ({| r_tid := tid; r_call := call; r_ret := ret; r_first := first;
+                            r_res := clock |} :: log)
+    = b2z (match call with TvFinish _ => true | _ => false end) + countz tv_is_finish log.
+  Proof. reflexivity. Qed.
+
+  Ltac tv_cnt := rewrite tv_call_cons, tv_finish_cons; cbn [b2z].
+
+  Lemma tv_step_ok :
+    forall m log W call pc sp tid first clock,
+      tv_G m log W -> tv_L call pc ->
+      match p_next (tv_prog c dec) pc (o_val (exec m (p_op (tv_prog c dec) pc) sp))
+                   (o_ok (exec m (p_op (tv_prog c dec) pc) sp)) with
+      | inl pc' => tv_G (o_mem (exec m (p_op (tv_prog c dec) pc) sp)) log
+                        (W - tv_weight pc + tv_weight pc') /\ tv_L call pc'
+      | inr ret => tv_G (o_mem (exec m (p_op (tv_prog c dec) pc) sp))
+                        ({| r_tid := tid; r_call := call; r_ret := ret;
+                            r_first := first; r_res := clock |} :: log) (W - tv_weight pc)
+      end.
+  Proof.
+    intros m log W call pc sp tid first clock [Hc Hb] HL.
+    destruct pc as [|lim| | |a|a| | |o|r|r p|r|r p|r|r a|r a]; unfold tv_L in HL;
+      cbn [tv_prog p_next p_op tv_op tv_next exec o_val o_ok o_mem tv_weight].
+    - (* poll_ready: limit() *) split; [split; [lia|exact Hb]|exact HL].
+    - (* poll_ready: in_flight.load() *) subst call. split; [tv_cnt; lia|exact Hb].
+    - (* call: fetch_add *) split; [|exact HL]. split.
+      + rewrite mset_same. lia.
+      + rewrite mset_other by discriminate. exact Hb.
+    - (* call: limit() *) split; [split; [lia|exact Hb]|exact HL].
+    - (* call: current_limit.load() *) subst call. destruct (a =? m LCur); cbn [tv_weight].
+      + split; [tv_cnt; lia|exact Hb].
+      + split; [split; [lia|exact Hb]|reflexivity].
+    - (* call: current_limit.store() *) subst call. split.
+      + rewrite mset_other by discriminate. tv_cnt. lia.
+      + rewrite mset_other by discriminate. exact Hb.
+    - (* panicking call: fetch_add *) split; [|exact HL]. split.
+      + rewrite mset_same. lia.
+      + rewrite mset_other by discriminate. exact Hb.
+    - (* panicking call: the guard's fetch_sub *) subst call. split.
+      + rewrite mset_same. tv_cnt. lia.
+      + rewrite mset_other by discriminate. exact Hb.
+    - (* the guard's fetch_sub *) subst call.
+      destruct (o =? 0); [|destruct (o =? 1); [|destruct (o =? 2)]]; cbn [tv_weight].
+      + split; [|exists o; reflexivity]. split; [rewrite mset_same; lia|].
+        rewrite mset_other by discriminate. exact Hb.
+      + split; [|exists o; reflexivity]. split; [rewrite mset_same; lia|].
+        rewrite mset_other by discriminate. exact Hb.
+      + split; [rewrite mset_same; tv_cnt; lia|]. rewrite mset_other by discriminate. exact Hb.
+      + split; [rewrite mset_same; tv_cnt; lia|]. rewrite mset_other by discriminate. exact Hb.
+    - (* record_success: load *) split; [split; [lia|exact Hb]|exact HL].
+    - (* record_success: cas *)
+      destruct ((m LLim =? p) && negb sp) eqn:E; cbn [o_val o_ok o_mem tv_weight].
+      + apply andb_prop in E. destruct E as [E _]. apply Z.eqb_eq in E.
+        split; [|exact HL]. split; [rewrite mset_other by discriminate; lia|].
+        rewrite mset_same. apply ctl_succ_bounds; try assumption. lia.
+      + split; [split; [lia|exact Hb]|exact HL].
+    - (* record_failure: load *) split; [split; [lia|exact Hb]|exact HL].
+    - (* record_failure: cas *)
+      destruct ((m LLim =? p) && negb sp) eqn:E; cbn [o_val o_ok o_mem tv_weight].
+      + split; [|exact HL]. split; [rewrite mset_other by discriminate; lia|].
+        rewrite mset_same. apply ctl_fail_bounds; assumption.
+      + split; [split; [lia|exact Hb]|exact HL].
+    - (* limit() *) split; [split; [lia|exact Hb]|exact HL].
+    - (* current_limit.load() *) destruct HL as [o ->]. destruct (a =? m LCur); cbn [tv_weight].
+      + split; [tv_cnt; lia|exact Hb].
+      + split; [split; [lia|exact Hb]|exists o; reflexivity].
+    - (* current_limit.store() *) destruct HL as [o ->]. split.
+      + rewrite mset_other by discriminate. tv_cnt. lia.
+      + rewrite mset_other by discriminate. exact Hb.
+  Qed.
+
+  Definition tv_inv := inv (PC := tv_pc) tv_G tv_L tv_weight.
+
+  Lemma tv_reach initial progs sched :
+    Forall tv_inv (states (step (tv_prog c dec)) (init_state (tv_mem c initial) progs) sched).
+  Proof.
+    apply inv_reach.
+    - intros k; destruct k; cbn; auto.
+    - intros k; destruct k; reflexivity.
+    - exact tv_step_ok.
+    - split; cbn; [reflexivity|]. unfold ctl_init. apply clampz_bounds. exact Hmm.
+  Qed.
+End TvMachine.
+
+(* in_flight = futures created - futures finished, where a future counts as created from the
+   fetch_add of its call() on (completed calls + calls past their fetch_add) and as finished
+   from the guard's fetch_sub on; at quiescence these are the completed calls and finishes.
+   For every number of clones/threads, every program, every interleaving. *)
+Lemma tv_inflight_exact :
+  forall (c : acfg) (dec : Z -> Z) (initial : Z) (progs : list (list tv_call))
+         (sched : list (nat * bool)),
+    a_min c <= a_max c -> a_max c <= U64MAX -> 0 <= a_inc c ->
+    Forall (fun s => st_mem s LInf = tv_created s - tv_finished s + tv_in_progress s
+                     /\ (quiescent s -> st_mem s LInf = tv_created s - tv_finished s)
+                     /\ a_min c <= st_mem s LLim <= a_max c)
+           (states (step (tv_prog c dec)) (init_state (tv_mem c initial) progs) sched).
+Proof.
+  intros c dec initial progs sched H1 H2 H3.
+  eapply Forall_impl; [|apply tv_reach; assumption].
+  intros s [[Hc Hb] _]. unfold tv_created, tv_finished, tv_in_progress.
+  split; [exact Hc|]. split; [|exact Hb].
+  intros Hq. rewrite (wsum_quiescent _ _ Hq) in Hc. lia.
+Qed.
+
+(* two clones, limit 1: worker 0 is admitted and calls; worker 1's readiness check, made while
+   that call is in flight, is refused; after worker 0's call has finished it is admitted *)
+Example clones_share_the_counter :
+  let c := {| a_min := 1; a_max := 1; a_inc := 1 |} in
+  let s := fold_left (step (tv_prog c (dec_q 1 2)))
+                     (map (fun t => (t, false)) [0; 0; 0; 0; 0; 1; 1; 0; 0; 0; 0; 0; 0; 1; 1]%nat)
+                     (init_state (tv_mem c 1) [[TvReady; TvCall; TvFinish 0]; [TvReady; TvReady]]) in
+  (map (fun r => (r_tid r, r_ret r)) (rev (st_log s)), st_mem s LInf)
+  = ([(0%nat, 11); (0%nat, 20); (1%nat, 13); (0%nat, 31); (1%nat, 11)], 0).
+Proof. vm_compute. reflexivity. Qed.
+
+(* a release that is a load followed by a store (instead of one fetch_sub) loses a decrement
+   when two completions interleave: two slots taken, both released, the counter says 1 *)
+Example nonatomic_release_refuted :
+  let m0 : mem := fun l => match l with LInf => 2 | _ => 0 end in
+  let s := fold_left (step tvn_prog) (map (fun t => (t, false)) [0; 1; 0; 1]%nat)
+                     (init_state m0 [[tt]; [tt]]) in
+  (st_mem s LInf, map (@th_cur _ _) (st_thr s)) = (1, [None; None]).
 Proof. vm_compute. reflexivity. Qed.
